@@ -2,6 +2,7 @@ package ratelimit
 
 import (
 	"net/http"
+	"sync"
 	"time"
 
 	"github.com/vulcand/oxy/v2/internal/holsterv4/clock"
@@ -144,5 +145,51 @@ func VerifC03Shapes() {
 			verifAssert("window-bound-1s-rate-across-shape-changes", sum*int64(time.Second) <= (burst1+1)*int64(time.Second)+T*avg1)
 		}
 	}
+	verifReach("end")
+}
+
+type vfOKLocked struct {
+	mu    sync.Mutex
+	calls int
+}
+
+func (h *vfOKLocked) ServeHTTP(w http.ResponseWriter, r *http.Request) {
+	h.mu.Lock()
+	h.calls++
+	h.mu.Unlock()
+	w.WriteHeader(http.StatusOK)
+}
+
+// C03-O6: two requests of one source arriving at once cannot both spend the same tokens.
+// Fresh limiter, rate 1/s with burst b in {1,2} (symbolic), the source has spent `used`
+// (symbolic, 0..b) tokens already; two concurrent requests of amount 1, the second running to
+// completion at any one lock boundary of the first, at the same instant: the number admitted
+// is min(2, b-used).
+func VerifC03Concurrent() {
+	verifClockInit("t0")
+	burst := int64(verifConcretize(verifInt("burst"), 1, 2))
+	used := int64(verifConcretize(verifInt("used"), 0, 2))
+	if used > burst {
+		verifStop()
+	}
+	ok := verifConcurrent("requests", 100000, func() (func(), func(), func() bool) {
+		next := &vfOKLocked{}
+		tl := vfNewLimiter(next, time.Second, 1, burst, 4)
+		for i := int64(0); i < used; i++ {
+			vfAmount = 1
+			tl.ServeHTTP(&verifRecorder{}, &http.Request{Host: "A", Header: http.Header{}})
+		}
+		base := next.calls
+		vfAmount = 1
+		serve := func() { tl.ServeHTTP(&verifRecorder{}, &http.Request{Host: "A", Header: http.Header{}}) }
+		return serve, serve, func() bool {
+			want := burst - used
+			if want > 2 {
+				want = 2
+			}
+			return int64(next.calls-base) == want
+		}
+	})
+	verifAssert("concurrent-requests-share-one-budget", ok)
 	verifReach("end")
 }
